@@ -909,7 +909,7 @@ def run(ctx):
         for i in range(16):
             explore(ctx, h, drv, 4000, "main%d" % i)
         explore(ctx, h, drv, 800, "big", big=True)
-    if ctx.proof_broken or ctx.corr_broken:
+    if (ctx.proof_broken or ctx.corr_broken) and not ctx.violations:
         ctx.log("obligation or correspondence broken: widening the search for a failing input")
         for i in range(3):
             explore(ctx, h, drv, 700, "search%d" % i)
